@@ -647,9 +647,17 @@ func minimiseAndConfirm(p PropCfg, rec sim.Record, bins map[bool]string, tier st
 	cmd.Env = env(append(raceEnv(sc.Race, 201), "GOMAXPROCS="+strconv.Itoa(sc.Procs))...)
 	out, err := cmd.CombinedOutput()
 	if err != nil {
-		return "", rec, fmt.Errorf("shrinking failed: %v\n%s", err, tail(string(out), 2000))
+		// the shrinker died (killed, out of memory ...): the unminimised
+		// record is still a valid replay file - never lose the failure
+		fmt.Printf("  shrinking failed (%v); keeping the unminimised record\n", err)
+		if len(rec.Trace) == 0 {
+			return "", rec, fmt.Errorf("shrinking failed and no choice sequence is known: %v\n%s", err, tail(string(out), 1000))
+		}
+		rb, _ := json.MarshalIndent(rec, "", " ")
+		os.WriteFile(final, rb, 0o644)
+	} else {
+		fmt.Printf("  %s", tail(string(out), 300))
 	}
-	fmt.Printf("  %s", tail(string(out), 300))
 	fb, err := os.ReadFile(final)
 	if err != nil {
 		return "", rec, err
